@@ -166,11 +166,12 @@ def explore(ctx):
                 'includes; 8 spellings of the include line; first / middle / last position; decoy files in the working '
                 'directories; include_bytes in a quarter of the trees) + 13 hand-made error / edge trees; non-trivial = '
                 'distinct tree whose splice the independent splicer could compute; plus shadow trees: the included name also exists in '
-                'the directory of a file read earlier, and the SAME include_dirs list object is passed to two consecutive calls')
+                'the directory of a file read earlier, and the SAME include_dirs list object is passed to two consecutive calls; plus repeat trees: one file reached twice without a cycle (twice in one file, at two depths, through a diamond, under two spellings)')
     gen = fe.TreeGen(ctx.rng)
     n = 30 if ctx.quick() else 120
     trees = [gen.make('bytes' if i % 5 == 4 else ('plain' if i % 5 < 3 else None)) for i in range(n)]
     trees += fe.shadow_trees(ctx.rng, 8 if ctx.quick() else 24)
+    trees += fe.repeat_trees(ctx.rng, 8 if ctx.quick() else 24)
     etrees = fe.error_trees()
     base = tempfile.mkdtemp(prefix='bbc14_')
     corr_cases = []
